@@ -20,7 +20,7 @@
     (`keyEq`, `copyBytes`, `skipLead`, `skipTrail`); `column_vals[a:b]` slices = `sliceE` (the model insists that the
     slice lies inside the buffer: stricter than numpy's clamping).
   * `categorical_transform` / `leaky_categorical_transform`: `cat_index[i]`, `cat_index[i + 1]`, `cat_values[index]` =
-    `getE` in `scanKeys`; `cat_keys[entry_start + j]` = `getE` in `keyEq`; `chunk[row_idx]` = `setE` in `catRows` /
+    `getE` in `scanKeys`; `cat_keys[entry_start + j]` = `getE` in `keyEq`; `chunk[row_idx]` = `setE` in `catRows` (and `catRowsChecked`, the kernel with fix NC06d: same subscripts) /
     `leakyRows`, dominated by `if row_idx >= chunk.shape[0]: break` (mirrored: `i ≥ chunk.length`);
     `freetext_indices[row_idx]` = `getE`, `freetext_indices[row_idx + 1]` = `setE` in `leakyRows`;
     `freetext_values[a:b] = …` = `sliceAssign` (destination range checked).
